@@ -27,9 +27,18 @@ func (q *recQ) note(n int) {
 	if n > q.maxN {
 		q.maxN = n
 	}
-	if q.guard && n > guardLimit {
+	if q.guard && n > guardLimitNow() {
 		panic(guardTrip{n})
 	}
+}
+
+// guardLimitNow: once the finding has been recorded by this process, requests that
+// would exceed the allocation bound anyway are excluded without being executed.
+func guardLimitNow() int {
+	if isReported(classAllocBytes) {
+		return allocSlack / 4
+	}
+	return guardLimit
 }
 
 func (q *recQ) Bytes(n int) ([]byte, error) {
